@@ -147,6 +147,14 @@ def isReferenceActivated (f : FUid) : M Bool := do
       | none => pyRaise "KeyError" s!"{p} (model line 136)"
     else return false
 
+/-- `deactivate_flow and _is_reference_activated_flow(state, flow_state)`: Python's `and` short-circuits — the parent
+    look-up (which can raise KeyError) happens only when `deactivate_flow` is true -/
+def deactivatesRef (deactivate : Bool) (f : FUid) : M Bool :=
+  if deactivate then isReferenceActivated f else pure false
+
+theorem deactivatesRef_false (f : FUid) : deactivatesRef false f = pure false := rfl
+theorem deactivatesRef_true (f : FUid) : deactivatesRef true f = isReferenceActivated f := rfl
+
 def isChildActivated (f : FUid) : M Bool := do
   let x ← getInstX f
   match x.parentUid with
@@ -179,7 +187,7 @@ def restartActivated (f : FUid) (scores : List Score) (deactivate : Bool) : M Un
 def abortFlow : Nat → FUid → List Score → Bool → M Unit
   | 0, _, _, _ => throw .outOfFuel
   | fuel + 1, f, scores, deactivate => do
-    if deactivate && (← isReferenceActivated f) then
+    if (← deactivatesRef deactivate f) then
       modInstX f fun x => { x with activated := x.activated - 1 }
       let x ← getInstX f
       if x.activated = 0 then
@@ -286,7 +294,7 @@ def logActionOrIntents (fuel : Nat) (f : FUid) (scores : List Score) : M Unit :=
     pushEvent (mkInternal evType [("flow_id", name), ("parameter", parameter), ("intent_flow_id", intent)] scores)
 
 def finishFlow (fuel : Nat) (f : FUid) (scores : List Score) (deactivate : Bool) : M Unit := do
-  if deactivate && (← isReferenceActivated f) then
+  if (← deactivatesRef deactivate f) then
     modInstX f fun x => { x with activated := x.activated - 1 }
     let x ← getInstX f
     if x.activated = 0 then
@@ -391,6 +399,9 @@ def slideStep (fuel : Nat) (f : FUid) (h : HUid) : M (Bool × List Key) := do
       else
         let mut args := setArg "source_head_uid" (.str h) (setArg "source_flow_instance_uid" (.str f) e.args)
         if e.name = "StartFlow" then
+          -- fixes/C10-startflow-requires-flow-id.diff: the SENDING flow fails, not the processing of the internal event
+          if (lookupArg "flow_id" e.args).isNone then
+            pyRaise "ColangRuntimeError" "Event 'StartFlow' needs a 'flow_id' parameter!"
           let x ← getInstX f
           args := setArg "flow_hierarchy_position" (.str s!"{x.hierPos}.{hd.pos}") args
         pushEvent (mkInternal e.name args (← headScores k))
@@ -614,15 +625,15 @@ def advanceHeadFront : Nat → List Key → M (List Key)
       else if hd.status = .merging && !(← getRest).queue.isEmpty then
         actionable := actionable ++ [k]
         continue
-      else if hd.status = .active then
-        -- `head.position += 1` is outside the try block
-        setHeadPos k (hd.pos + 1)
+      let advancePosition : Bool := hd.status = .active
       if (← getInst f).status = .waiting then setFlowStatus f .starting
       let flowIsStarting : Bool := (← getInst f).status = .starting
       let mut flowFinished := false
       let mut flowAborted := false
-      -- first part of the try block: slide and advance the forked heads
+      -- first part of the try block: `head.position += 1` (inside the try block since
+      -- fixes/C10-head-advance-inside-try.diff), slide and advance the forked heads
       let r1 ← attemptPy (do
+        if advancePosition then setHeadPos k (hd.pos + 1)
         let newHeads ← slide fuel f k.2
         if newHeads.isEmpty then pure [] else advanceHeadFront fuel newHeads)
       let mut failure : Option (String × String) := none
